@@ -19,6 +19,8 @@ import (
 	"github.com/google/gce-tcb-verifier/keys/gcpkms"
 	styp "github.com/google/gce-tcb-verifier/sign/types"
 	"google.golang.org/grpc"
+	"google.golang.org/grpc/codes"
+	"google.golang.org/grpc/status"
 	"google.golang.org/protobuf/types/known/wrapperspb"
 
 	"verifharness/fx"
@@ -52,12 +54,26 @@ type Service struct {
 	PollStates         []kmspb.CryptoKeyVersion_CryptoKeyVersionState
 	polls              int
 	PollErrAt          int
+	PollErrAlways      bool       // every poll fails
+	ErrCode            codes.Code // status code of injected errors (OK: a plain error)
+	DestroyFailCall    int        // 1-based destroy call that is refused (0 = none)
+	destroyCalls       int
 	Destroyed          []string
 	NewVersionState    kmspb.CryptoKeyVersion_CryptoKeyVersionState
 	Sign               func(*kmspb.AsymmetricSignRequest) (*kmspb.AsymmetricSignResponse, error)
 }
 
 var errSvc = errors.New("kms: injected service error")
+
+// svcCodes: the gRPC status codes an injected service error carries (chosen per case)
+var svcCodes = []codes.Code{codes.Internal, codes.Unavailable, codes.NotFound, codes.FailedPrecondition, codes.PermissionDenied, codes.DeadlineExceeded, codes.Aborted}
+
+func (s *Service) svcErr() error {
+	if s.ErrCode == codes.OK {
+		return errSvc
+	}
+	return status.Error(s.ErrCode, "kms: injected service error")
+}
 
 func pageOf(total, cursor, want, real int) (n int) {
 	if want == -1 { // an empty page that still carries a continuation token
@@ -95,7 +111,7 @@ func (s *Service) ListCryptoKeyVersions(_ context.Context, r *kmspb.ListCryptoKe
 		return nil, err
 	}
 	if s.FailVerCall == s.ListVerCalls {
-		return nil, errSvc
+		return nil, s.svcErr()
 	}
 	all := s.Versions[r.Parent]
 	cursor := parseTok(r.PageToken)
@@ -159,6 +175,10 @@ func (s *Service) find(name string) *kmspb.CryptoKeyVersion {
 func (s *Service) DestroyCryptoKeyVersion(_ context.Context, r *kmspb.DestroyCryptoKeyVersionRequest, _ ...grpc.CallOption) (*kmspb.CryptoKeyVersion, error) {
 	s.mu.Lock()
 	defer s.mu.Unlock()
+	s.destroyCalls++
+	if s.DestroyFailCall == s.destroyCalls {
+		return nil, s.svcErr()
+	}
 	v := s.find(r.Name)
 	if v == nil {
 		return nil, fmt.Errorf("kms model: no version %s", r.Name)
@@ -175,8 +195,8 @@ func (s *Service) GetCryptoKeyVersion(_ context.Context, r *kmspb.GetCryptoKeyVe
 	s.mu.Lock()
 	defer s.mu.Unlock()
 	s.polls++
-	if s.PollErrAt == s.polls {
-		return nil, errSvc
+	if s.PollErrAt == s.polls || s.PollErrAlways {
+		return nil, s.svcErr()
 	}
 	v := s.find(r.Name)
 	if v == nil {
@@ -352,7 +372,18 @@ func RunC20(run *vk.Run) {
 				if h.Op == "ListErr" {
 					s.FailVerCall = pages + 1
 				}
+				if h.Op == "DestroyErr" {
+					// the first real version of abstract version h.N is the one the service refuses to destroy
+					before := 0
+					for k := 0; k < h.N-1 && k < len(pre); k++ {
+						if pre[k] == "ENABLED" || pre[k] == "DISABLED" {
+							before++
+						}
+					}
+					s.DestroyFailCall = before*block + 1
+				}
 			}
+			s.ErrCode = svcCodes[i%len(svcCodes)]
 			total := len(pre) * block
 			s.Budget = pages + 3 + 1
 			m := manager(s)
@@ -378,7 +409,7 @@ func RunC20(run *vk.Run) {
 					if s.ListVerCalls > pages+1 {
 						run.Violation("listing-call-bound:wipeout", fmt.Sprintf("wipeout made %d listing calls for %d pages", s.ListVerCalls, pages), rep)
 					}
-				} else if s.FailVerCall == 0 {
+				} else if s.FailVerCall == 0 && s.DestroyFailCall == 0 {
 					run.Violation("wipeout-fails", fmt.Sprintf("wipeout fails without a service error: %v", err), rep)
 				}
 			} else {
@@ -582,5 +613,32 @@ func RunC20(run *vk.Run) {
 	}
 	run.AddDrift(drift)
 	run.Exhaustive = true
-	run.Rule = "every terminal behaviour of Kms.tla within the tier's bounds (all version-state vectors up to N versions, all legal paginations with page size 2, a service error at each listing call, all polling outcomes, all signing flag/option combinations) is replayed against the real gcpkms Manager/Signer over an in-process KMS model with block scaling (1 abstract version = 50 real); plus all 2048 single-bit corruptions of the signature and the key-level listing loop for 0..250 keys"
+	// a service that keeps failing the poll with one status code: creating a key version returns (an
+	// error) after a bounded number of calls, whatever the code, and well before the caller's patience ends
+	for _, code := range svcCodes {
+		s := &Service{Versions: map[string][]*kmspb.CryptoKeyVersion{}, NewVersionState: kmspb.CryptoKeyVersion_PENDING_GENERATION, PollErrAlways: true, ErrCode: code}
+		cctx, cancel := context.WithTimeout(ctx, 1500*time.Millisecond)
+		done := make(chan error, 1)
+		go func() {
+			_, err := manager(s).CreateNewSigningKeyVersion(gcpkms.NewSigningKeyContext(cctx, &gcpkms.SigningKeyContext{SigningKeyID: "k"}))
+			done <- err
+		}()
+		select {
+		case err := <-done:
+			s.mu.Lock()
+			polls := s.polls
+			s.mu.Unlock()
+			if err == nil {
+				run.Violation("rotation-returns-unusable", fmt.Sprintf("creating a key version succeeded although every poll failed with %v", code), nil)
+			}
+			if polls > 20 {
+				run.Violation("polling-does-not-terminate", fmt.Sprintf("creating a key version polled %d times within 1.5 s while every poll failed with %v", polls, code), nil)
+			}
+		case <-time.After(12 * time.Second):
+			run.Violation("polling-does-not-terminate", fmt.Sprintf("creating a key version does not return while every poll fails with %v (the caller's context expired after 1.5 s)", code), nil)
+		}
+		cancel()
+		run.Case("poll-always-fails:"+code.String(), true)
+	}
+	run.Rule = "every terminal behaviour of Kms.tla within the tier's bounds (all version-state vectors up to N versions, all legal paginations with page size 2, a service error at each listing call and a refused destroy at each destroyable version (status codes rotated over Internal, Unavailable, NotFound, FailedPrecondition, PermissionDenied, DeadlineExceeded, Aborted), all polling outcomes and a service that fails every poll, all signing flag/option combinations) is replayed against the real gcpkms Manager/Signer over an in-process KMS model with block scaling (1 abstract version = 50 real); plus all 2048 single-bit corruptions of the signature and the key-level listing loop for 0..250 keys"
 }
